@@ -74,6 +74,28 @@ CLAIMED["C13"] = dict(
          "parameter is the buffer size only (the other five settings are checked by the same code path); POSIX shared-memory flavour not traced.",
     technique="Lean 4 proof (bit-ownership / destroy-token accounting invariant over an interleaving semantics) + atomic-step trace correspondence",
     design="DESIGN.md §5 C13")
+CLAIMED["C09"] = dict(
+    level="proof",
+    text="Lean 4 theorems over small-step interleaving models (one step per atomic operation) of UniqueIndexSet (free list with ABA-tagged head) and RobustUniqueIndexSet "
+         "(owner cells + generation counter, lock, recovery of dead owners) for ANY number of threads, ANY programs and EVERY schedule: an index is held by at most one "
+         "thread and lies within the capacity; an acquire reports OutOfIndices only when every cell is taken or being released/recovered; the lock is final; recovery "
+         "returns exactly the dead owner's indices, each once; the generation only grows. Two edge statements are false and proved false (capacity >= 2^24-1 for the plain "
+         "set, a generation counter of 2^64-1 for the robust set). Tied to /repo by atomic-step traces. Pool allocator: C15's arithmetic theorems + differential histories.",
+    note="Trusted: Lean kernel + 3 standard axioms; hand-written L2 models (tie = trace comparison under a serialising scheduler: SC interleavings only — the Relaxed/Acquire/Release "
+         "annotations are compared textually but weak-memory executions are neither modelled nor exhibited); pool allocator concurrency reduced to the index set.",
+    technique="Lean 4 proof (ownership invariant over an interleaving semantics, by induction over schedules) + atomic-step trace correspondence",
+    design="DESIGN.md §5 C09")
+CLAIMED["C05"] = dict(
+    level="proof",
+    text="Lean 4 theorems over a small-step interleaving model of the event hand-shake (Notifier::notify: activate id, IDLE->PENDING, trigger, PENDING->NOTIFIED; Waiter::drain_events: "
+         "NOTIFIED->IDLE or wait, store IDLE, empty trigger, drain) over both event states (bit set with 8-bit words, counting set) for ANY number of notifiers, ANY programs, EVERY "
+         "schedule: no phantom ids, never more occurrences than sent, merged but never dropped, conservation for the counting set, and the wake-up invariant. The full no-lost-wake-up "
+         "statement is FALSE: a machine-checked reachable deadlock (listener asleep, NOTIFIED state, empty trigger, undelivered id) that replays on the real code (known finding); "
+         "the partial theorems state exactly which step loses the signal. Tied to /repo by atomic-step traces including blocking waits.",
+    note="Trusted: Lean kernel + 3 standard axioms; hand-written L2 model (tie = trace comparison under a serialising scheduler, SC interleavings; all hand-shake operations are SeqCst "
+         "in the source); the trigger back-ends are represented by a counter (trace trigger composed with the real EventImpl); time-outs are not modelled.",
+    technique="Lean 4 proof (wake-up invariant over an interleaving semantics + machine-checked counterexample) + atomic-step trace correspondence",
+    design="DESIGN.md §5 C05")
 NOT_YET = {}
 
 def main():
